@@ -169,7 +169,7 @@ class C04(PropertyCheck):
     ]
     assumptions = [
         "kernel footprint of every unmasked pixel inside the frame; noise map strictly positive; odd kernel",
-        "reconstruction compared only when cond(F+H) < 1e6 (otherwise both solves are checked by residual only)",
+        "reconstruction compared only when cond(F+H)*max(1,|s|) < 1e6 (otherwise both solves are checked by residual only)",
     ]
 
     # ------------------------------------------------------------------ generation
@@ -468,14 +468,21 @@ class C04(PropertyCheck):
 
     @staticmethod
     def _cond(impl_obs, key):
+        """amplification of rounding in the solve: cond(F+H) * max(1, |s|_inf).  Entries of the
+        reconstruction are compared (rtol 1e-9 on max(1,|entry|)) only when this is < 1e6, i.e. when the
+        data determine numpy's answer to about 1e-10 absolutely."""
         o = impl_obs.get(key, {})
         if "curvature_matrix" not in o or "_H" not in impl_obs:
             return float("inf")
         A = _mat(o["curvature_matrix"]) + _mat(impl_obs["_H"])
         try:
-            return float(np.linalg.cond(A))
+            c = float(np.linalg.cond(A))
         except Exception:
             return float("inf")
+        rec = o.get("reconstruction")
+        if isinstance(rec, list) and rec:
+            c *= max(1.0, float(np.max(np.abs(_arr(rec)))))
+        return c
 
     def compare(self, case, impl_obs, model_obs, cmp):
         if case.get("kind") == "utils" and "err" not in impl_obs:
